@@ -161,6 +161,7 @@ MSG_CODE = {
     "CompleteStage": "CS", "SkipStage": "SK", "CancelStage": "XS", "CompleteWorkflow": "CW", "CancelWorkflow": "XW",
     "JumpToStage": "JS", "SignalStage": "SG", "ContinueParentStage": "CP",
     "PauseTask": "PT", "ResumeStage": "RS",      # pause / resume dimension (implementation-only, harness/synth_suites.py)
+    "RestartStage": "RR",                        # operator restart dimension (implementation-only, harness/synth_suites.py)
 }
 
 
@@ -629,6 +630,13 @@ class Engine:
     def resume(self) -> None:
         """store.resume(): PAUSED -> RUNNING on the workflow row, if it is (still) PAUSED; closes the pause record"""
         self.store.resume(self.wf_id)
+
+    def restart_stage(self, s: int) -> None:
+        """Orchestrator.restart(): pushes RestartStage for stage index s (the handler resets a COMPLETED stage and its tasks to
+        NOT_STARTED, re-opens a finished workflow and pushes StartStage; refuses inside a canceled workflow)"""
+        from stabilize import Orchestrator
+
+        Orchestrator(self.queue, self.store).restart(self._wf_obj, self.stage_ids[s])
 
     def locked_ids(self) -> set[int]:
         """rows claimed by a worker that never acknowledged them (the dead worker's lock has not lapsed yet)"""
